@@ -4,6 +4,8 @@ package verifharness
 // free5gc/util/mongoapi RestfulAPIGetOne / RestfulAPIPutOne.
 
 import (
+	"strings"
+	"os"
 	"encoding/binary"
 	"fmt"
 	"io"
@@ -45,6 +47,26 @@ func StartFakeMongo() (*FakeMongo, string, error) {
 		}
 	}()
 	return f, "mongodb://" + ln.Addr().String(), nil
+}
+
+// ListenUnix makes the same store reachable over a Unix domain socket as well; the result is the connection string in the
+// percent-encoded form MongoDB drivers accept for socket paths (mongodb://%2Fdir%2Fname.sock).
+func (f *FakeMongo) ListenUnix(path string) (string, error) {
+	_ = os.Remove(path)
+	ln, err := net.Listen("unix", path)
+	if err != nil {
+		return "", err
+	}
+	go func() {
+		for {
+			c, err := ln.Accept()
+			if err != nil {
+				return
+			}
+			go f.serve(c)
+		}
+	}()
+	return "mongodb://" + strings.ReplaceAll(path, "/", "%2F"), nil
 }
 
 func (f *FakeMongo) Insert(ns string, doc bson.M) {
